@@ -83,6 +83,16 @@ public:
    /// @since  0.2, 10.04.2016
    TypedArgBase* findArg( const ArgumentKey& key) const;
 
+   /// Returns if an argument with exactly this key is defined, i.e. does not
+   /// accept abbreviations of long argument names.<br>
+   /// Needed by argument groups: An argument that is the exact key of an
+   /// argument in one handler must not be taken as abbreviation by another
+   /// handler.
+   /// @param[in]  key  The short or long argument name to check.
+   /// @return  \c true if an argument with exactly this key is defined.
+   /// @since  x.y.z, 01.10.2026
+   bool isExactKey( const ArgumentKey& key) const;
+
    /// Specifies the line length to use when printing the usage.
    /// Used when this container is used to store te sub-group arguments.
    /// @param[in]  useLen  The new line length to use.<br>
